@@ -637,6 +637,23 @@ func (s *SSH) iosLine(l, class, dev string) {
 			s.emit("\r\nBuilding configuration...\r\n%Aborting Save. Compress the config.[OK]\r\n" + s.prompt())
 			return
 		}
+		// a further deviation at the confirmation itself (bound 2)
+		switch dev {
+		case DevError:
+			s.rec(l, ClSave, dev, false)
+			s.emit("\r\n" + crlf(s.errText()) + s.prompt())
+			return
+		case DevNoOK:
+			s.rec(l, ClSave, dev, false)
+			s.emit("\r\nBuilding configuration...\r\n% Error writing nvram\r\n" + s.prompt())
+			return
+		case DevSaveAbort, DevNvramQAbort:
+			s.rec(l, ClSave, dev, false)
+			s.emit("\r\nBuilding configuration...\r\n%Aborting Save. Compress the config.[OK]\r\n" + s.prompt())
+			return
+		case DevNvramQ:
+			dev = "" // the question is not asked twice
+		}
 		s.rec(l, ClSave, dev, dev == "")
 		s.Saved++
 		s.modified = false
